@@ -368,6 +368,23 @@ def _run_codec(P, chk, rules, spec, enc_tab):
             if x_.get("k") == "Bin" and x_["op"] in ("<<", ">>", "<<=", ">>=") and cval(sk(x_["a"][1])) is None:
                 raise AnalysisBroken("%s: shift by a run-time amount (%s): the codec is not written as one unrolled block per loop "
                                      "iteration, the block rules do not apply" % (fn_.name, pp(x_)[:50]))
+    # .. and count input and output upwards from 0 against the length and the capacity; a countdown of what is left
+    # (`left = size; .. left--`) is a different book-keeping that the counter rules do not model
+    for fn_ in (encf, decf):
+        if len(fn_.params) == 4:
+            ln_ = fn_.params[3]["ref"]["name"]
+            for b_, x_ in fn_.all_nodes():
+                tgt_ = None
+                if x_.get("k") == "Bin" and x_["op"] == "=" and sk(x_["a"][0]).get("k") == "Ref" and pp(sk(x_["a"][1])) == ln_:
+                    tgt_ = pp(sk(x_["a"][0]))
+                elif x_.get("k") == "Decl":
+                    for d_ in x_["decls"]:
+                        if d_.get("init") is not None and pp(sk(d_["init"])) == ln_:
+                            tgt_ = d_["ref"]["name"]
+                if tgt_ is not None and any(y_.get("k") == "Un" and y_["op"] in ("post--", "pre--") and pp(sk(y_["a"][0])) == tgt_
+                                            for _, y_ in fn_.all_nodes()):
+                    raise AnalysisBroken("%s: the input length is counted down in `%s`: the counter rules model an index that "
+                                         "counts up against the length, they do not apply" % (fn_.name, tgt_))
     # ---------------------------------------------------------------- encoder
     w, st0, head, ints = analyse(P, encf, kbits, "enc")
     outc, inc = counters(w, encf, st0, ints)
